@@ -349,4 +349,139 @@ theorem chunkSchedule_flatten (n b : Nat) (hb : 0 < b) : (chunkSchedule n b).fla
   simp only [this, if_false]
   exact chunksAux_flatten b hb n (List.range n) (by simp)
 
+/-! ## `HyperparameterState`: dictionaries and call histories -/
+
+theorem Dict.get?_set {α : Type} (d : Dict α) (k : String) (v : α) (k' : String) :
+    (d.set k v).get? k' = if k' = k then some v else d.get? k' := by
+  induction d with
+  | nil =>
+    simp only [Dict.set, Dict.get?]
+    by_cases h : k' = k
+    · simp [h]
+    · have : ¬ k = k' := fun e => h e.symm
+      simp [h, this]
+  | cons p t ih =>
+    obtain ⟨a, b⟩ := p
+    simp only [Dict.set]
+    by_cases hak : a = k
+    · subst hak
+      simp only [if_true, Dict.get?]
+      by_cases h : k' = a
+      · subst h; simp
+      · have : ¬ a = k' := fun e => h e.symm
+        simp [h, this]
+    · simp only [hak, if_false, Dict.get?, ih]
+      by_cases h : a = k'
+      · subst h
+        simp [hak]
+      · simp [h]
+
+/-- the value the last entry of `e` with key `k` carries -/
+def lastVal {α : Type} (e : Dict α) (k : String) : Option α :=
+  e.foldl (fun acc kv => if kv.1 = k then some kv.2 else acc) none
+
+theorem Dict.get?_update_aux {α : Type} (e : Dict α) (d : Dict α) (k : String) :
+    (e.foldl (fun a kv => a.set kv.1 kv.2) d).get? k =
+      match e.foldl (fun a kv => if kv.1 = k then some kv.2 else a) none with
+      | some v => some v
+      | none => d.get? k := by
+  induction e generalizing d with
+  | nil => simp
+  | cons p t ih =>
+    simp only [List.foldl_cons]
+    rw [ih]
+    by_cases hk : p.1 = k
+    · simp only [hk, if_true]
+      -- the accumulator is `some p.2` from here on: it can only be replaced by a later `some`
+      have key : ∀ (l : Dict α) (a : α),
+          (l.foldl (fun acc kv => if kv.1 = k then some kv.2 else acc) (some a)) =
+            match l.foldl (fun acc kv => if kv.1 = k then some kv.2 else acc) none with
+            | some v => some v
+            | none => some a := by
+        intro l
+        induction l with
+        | nil => intro a; simp
+        | cons q l ihl =>
+          intro a
+          simp only [List.foldl_cons]
+          by_cases hq : q.1 = k
+          · simp only [hq, if_true]
+            rw [ihl q.2]
+            cases List.foldl (fun acc kv => if kv.1 = k then some kv.2 else acc) none l <;> rfl
+          · simp only [hq, if_false]
+            exact ihl a
+      rw [key t p.2]
+      cases t.foldl (fun acc kv => if kv.1 = k then some kv.2 else acc) none with
+      | some v => rfl
+      | none => simp [Dict.get?_set, ← hk]
+    · simp only [hk, if_false]
+      cases t.foldl (fun acc kv => if kv.1 = k then some kv.2 else acc) none with
+      | some v => rfl
+      | none =>
+        have : ¬ k = p.1 := fun e => hk e.symm
+        simp [Dict.get?_set, this]
+
+/-- `d.update(e)[k]` is the last value `e` gives to `k`, else `d[k]` -/
+theorem Dict.get?_update {α : Type} (d e : Dict α) (k : String) :
+    (d.update e).get? k = match lastVal e k with
+      | some v => some v
+      | none => d.get? k :=
+  Dict.get?_update_aux e d k
+
+section History
+variable {α ρ : Type}
+
+theorem stepState_initial (neg : α → α) (st : HState α ρ) (s : Step α ρ) :
+    (stepState neg st s).initialAb = st.initialAb ∧ (stepState neg st s).initialRot = st.initialRot := by
+  cases s with
+  | call ab rot => exact ⟨rfl, rfl⟩
+  | grid ab rot =>
+    simp only [stepState]
+    split <;> exact ⟨rfl, rfl⟩
+
+theorem grid_initial_only (neg : α → α) (st st' : HState α ρ) (ab : Dict α) (rot : Option ρ)
+    (h1 : st.initialAb = st'.initialAb) (h2 : st.initialRot = st'.initialRot) :
+    stepState neg st (.grid ab rot) = stepState neg st' (.grid ab rot) := by
+  have : st.cleared = st'.cleared := by
+    cases st; cases st'; simp_all [HState.cleared]
+  simp only [stepState, this]
+
+/-- the last fixed-value grid search of a history, if any -/
+def lastGrid (h : List (Step α ρ)) : Option (Dict α × Option ρ) :=
+  h.foldl (fun acc s => match s with
+    | .grid a r => some (a, r)
+    | .call _ _ => acc) none
+
+/-- the state a history leads to, as a function of the object's initial hyper-parameters and the last grid search only -/
+def stateOf (neg : α → α) (st : HState α ρ) : Option (Dict α × Option ρ) → HState α ρ
+  | none => st
+  | some (a, r) => stepState neg st (.grid a r)
+
+theorem stateOf_initial (neg : α → α) (st : HState α ρ) (g : Option (Dict α × Option ρ)) :
+    (stateOf neg st g).initialAb = st.initialAb ∧ (stateOf neg st g).initialRot = st.initialRot := by
+  cases g with
+  | none => exact ⟨rfl, rfl⟩
+  | some p => exact stepState_initial neg st _
+
+theorem runHistory_aux (neg : α → α) (st : HState α ρ) (h : List (Step α ρ))
+    (g : Option (Dict α × Option ρ)) :
+    h.foldl (stepState neg) (stateOf neg st g) =
+      stateOf neg st (h.foldl (fun acc s => match s with
+        | .grid a r => some (a, r)
+        | .call _ _ => acc) g) := by
+  induction h generalizing g with
+  | nil => rfl
+  | cons s t ih =>
+    simp only [List.foldl_cons]
+    cases s with
+    | call ab rot => exact ih g
+    | grid ab rot =>
+      have e : stepState neg (stateOf neg st g) (.grid ab rot) = stateOf neg st (some (ab, rot)) := by
+        obtain ⟨h1, h2⟩ := stateOf_initial neg st g
+        exact grid_initial_only neg _ st ab rot h1 h2
+      rw [e]
+      exact ih (some (ab, rot))
+
+end History
+
 end QuantemModel.DirectPtycho
